@@ -6,6 +6,7 @@ import threading
 class Job:
     def execute(self): pass
     def request_stop(self): pass
+    def clear_stop(self): pass
 
 
 class Agent:
@@ -18,6 +19,7 @@ class Agent:
         self._callback = callback
         self._thread = None
         self._finished = False
+        self._stop_lock = threading.Lock()
         self._name = name or 'job {}'.format(id(self))
 
     @property
@@ -32,21 +34,29 @@ class Agent:
         return self._thread is not None and self._thread.is_alive()
 
     def execute(self):
+        # Whatever an earlier run of the same job object left behind is
+        # dropped before this run can be the target of a request.
+        clear_stop = getattr(self._job, 'clear_stop', None)
+        if clear_stop is not None:
+            clear_stop()
         self._thread = threading.Thread(target=self._execute_and_call)
         self._thread.start()
         return self
 
     def request_stop(self):
         # A request that arrives when this run is already over must not leak
-        # into a later execution of the same job object.
-        if not self._finished:
-            self._job.request_stop()
+        # into a later execution of the same job object. The lock keeps a
+        # request that passed the test from being delivered after the end.
+        with self._stop_lock:
+            if not self._finished:
+                self._job.request_stop()
 
     def _execute_and_call(self):
         try:
             self._job.execute()
         finally:
-            self._finished = True
+            with self._stop_lock:
+                self._finished = True
             self._callback(self)
 
 
